@@ -7,7 +7,10 @@ import (
 	"path"
 	"strings"
 
+	"git.defalsify.org/vise.git/cache"
 	"git.defalsify.org/vise.git/db"
+	"git.defalsify.org/vise.git/persist"
+	"git.defalsify.org/vise.git/state"
 
 	"verif/harness/app"
 	"verif/harness/vk"
@@ -164,11 +167,12 @@ func c11Probe(backend string, a, b c11addr) string {
 func C11() *vk.Check {
 	return &vk.Check{ID: "C11", Level: "exploration", MinEvaluations: 1000, Shards: func(string) int { return 8 }, Run: runC11,
 		Rule: "exhaustive over ordered pairs of different addresses (type, session-if-sessioned, key) drawn from an adversarial alphabet (separators, type-prefix characters, language-like suffixes, empty session, path fragments, binary bytes): quick 24 session ids x 24 keys, thorough 60 x 60 plus PRNG binary ids/keys; types STATE, USERDATA and unlocked BIN/TEMPLATE/MENU/STATICLOAD; backends mem, fs, fs binary-key, Postgres fake. All n(n-1) ordered pairs are covered by bit-indexed rounds: round (j,b) writes a unique value to every address whose index has bit j == b on a fresh store and then reads all addresses; a written address must return its own value, an unwritten one must not return any value; on fs every session context's listing must only contain that session's records. Every hit is re-run as an isolated two-address probe on a fresh store and its mechanism computed from the two addresses. " +
-			"distinct = ordered (written, unwritten) pairs covered, by construction; non-trivial = every pair of different addresses.",
+			"Plus a persister leg: one persist.Persister saves the snapshots of 2/3/8 sessions one after another on each backend (records of equal and of different size); each session loaded through a fresh handle must get back its own state and cache. distinct = ordered (written, unwritten) pairs covered, by construction; non-trivial = every pair of different addresses.",
 		Assumptions: []string{"an address whose Put fails is 'not accepted by the backend' and only has to stay unreadable", "values are unique per address and round, so a value identifies the write it came from"}}
 }
 
 func runC11(c *vk.Ctx) {
+	c11PersisterReuse(c)
 	ctx := context.Background()
 	sids, keys := c11SidsQuick, c11KeysQuick
 	if !c.Quick() {
@@ -322,4 +326,62 @@ func runC11(c *vk.Ctx) {
 	}
 	c.Count("max_addresses", int64(n))
 	c.SetExhaustive(true)
+}
+
+// c11PersisterReuse: one Persister object saves the snapshots of several sessions one after another (Save takes
+// the session as its key, so a long-lived persister is legal use); every session, loaded through a fresh handle
+// and persister afterwards, must get back exactly its own state and cache.
+func c11PersisterReuse(c *vk.Ctx) {
+	if !c.Mine(1) || (c.Only != "" && c.Only != "persister-reuse") {
+		return
+	}
+	c.Begin("persister-reuse")
+	for _, backend := range []string{"mem", "fs", "fsbin", "pg"} {
+		for _, n := range []int{2, 3, 8} {
+			for _, sameSize := range []bool{true, false} {
+				b, err := app.NewBackend(backend)
+				if err != nil {
+					continue
+				}
+				store, _ := b.Handle()
+				pe := persist.NewPersister(store)
+				type rec struct{ sid, node, val string }
+				var recs []rec
+				for i := 0; i < n; i++ {
+					r := rec{sid: fmt.Sprintf("user%02d", i), node: fmt.Sprintf("node%02d", i), val: fmt.Sprintf("secret-of-user-%02d", i)}
+					if !sameSize {
+						r.val += strings.Repeat("x", (n-i)*7)
+					}
+					recs = append(recs, r)
+					st := state.NewState(4)
+					st.Down("root")
+					st.Down(r.node)
+					ca := cache.NewCache()
+					ca.Push()
+					ca.Push()
+					ca.Add("pin", r.val, 200)
+					pe = pe.WithContent(st, ca)
+					if err := pe.Save(r.sid); err != nil {
+						c.Violate(backend+":persister-reuse:save-fails", err.Error(), "persister-reuse", nil)
+					}
+				}
+				for _, r := range recs {
+					h2, _ := b.Handle()
+					p2 := persist.NewPersister(h2).WithContent(state.NewState(4), cache.NewCache())
+					c.EvalN(1, 1)
+					c.Count("persister_reuse_loads", 1)
+					if err := p2.Load(r.sid); err != nil {
+						c.Violate(backend+":persister-reuse:record-destroyed-by-a-later-save", fmt.Sprintf("%s: %d sessions saved through one Persister (same size %v); Load(%s) fails: %v", backend, n, sameSize, r.sid, err), "persister-reuse", map[string]interface{}{"backend": backend, "sessions": n})
+						continue
+					}
+					where, _ := p2.GetState().Where()
+					got, _ := p2.GetMemory().Get("pin")
+					if where != r.node || got != r.val {
+						c.Violate(backend+":persister-reuse:session-reads-another-sessions-snapshot", fmt.Sprintf("%s: %d sessions saved through one Persister (same size %v); session %s loads node %q pin %q, saved node %q pin %q", backend, n, sameSize, r.sid, where, got, r.node, r.val), "persister-reuse", map[string]interface{}{"backend": backend, "sessions": n})
+					}
+				}
+				b.Cleanup()
+			}
+		}
+	}
 }
